@@ -7,7 +7,7 @@ open Lean PonyVerif.Drive PonyVerif.Model.DbSession
   request {"op":"run", "env":{"should_retry":[exc..], "commit_fail":[null|exc, ..], "tx":[exc..]},
            "state":{"counter":n, "session":null|{"sid":..,"ddl":..,"ser":..}, "pending":[..], "committed":[..]}  (optional; default clean),
            "prog": P}
-  P = {"k":"skip"} | {"k":"flush"} | {"k":"write","w":n} | {"k":"mark","n":n} | {"k":"observe"} | {"k":"raise","e":exc}
+  P = {"k":"skip"} | {"k":"flush"} | {"k":"commit"} | {"k":"rollback"} | {"k":"write","w":n} | {"k":"mark","n":n} | {"k":"observe"} | {"k":"raise","e":exc}
     | {"k":"seq","ps":[P..]} | {"k":"try","p":P,"catch":[exc..],"h":P}
     | {"k":"with","o":O,"p":P} | {"k":"call","o":O,"bodies":[P..]}   (execution i runs bodies[min(i, len-1)])
     | {"k":"bottle","resp":[exc..],"err":[exc..],"bodies":[P..]}   (isinstance(e, HTTPResponse) / isinstance(e, HTTPError))
@@ -124,6 +124,8 @@ partial def progOfJson (env : Env) (j : Json) : Except String Prog := do
   | "write" => pure (.write (← argNat j "w"))
   | "mark" => pure (.mark (← argNat j "n"))
   | "observe" => pure .observe
+  | "commit" => pure .commit
+  | "rollback" => pure .rollback
   | "raise" => pure (.raise (← excOfJson (optField j "e")))
   | "seq" =>
     let ps ← (← argArr j "ps").mapM (progOfJson env)
